@@ -413,6 +413,9 @@ class Client:
         code, data, challenge = self.__send_command(
             "AUTHENTICATE", [b"DIGEST-MD5"], withcontent=True, nblines=1
         )
+        if not challenge:
+            # the server answered NO instead of sending a challenge
+            return False
         dmd5 = DigestMD5(challenge, "sieve/%s" % self.srvaddr)
 
         response = dmd5.response(login, password, authz_id).encode("ascii")
